@@ -141,6 +141,7 @@ fn run(a: &Args) {
             let mut doc = Document::new();
             doc.set_title(TITLE);
             doc.set_author(AUTHOR);
+            doc.set_subject(""); // an empty string next to the others: under AES it still takes an IV and a padding block
             let mut page = Page::new(200.0, 100.0);
             page.text().set_font(Font::Helvetica, 12.0).at(10.0, 50.0).write(BODY).map_err(|e| e.to_string())?;
             doc.add_page(page);
